@@ -1117,6 +1117,15 @@ func c13ClientX(e *Env, forC14 bool, forced *c13Forced) {
 					// the connection ends while this DWR is still waiting for its answer
 					earlyTerm = true
 					e.Probe("terminated-with-dwr-outstanding")
+					// (the peer's own probes that are still on their way are not sent: the run ends here)
+					pending = nil
+					var keep []smcOut
+					for _, o := range w.outbox {
+						if o.what != "peer-dwr" {
+							keep = append(keep, o)
+						}
+					}
+					w.outbox = keep
 				}
 				dwaDue := false
 				for _, o := range w.outbox {
